@@ -99,6 +99,7 @@ func genC13(p *Plan, r *RNG) {
 	p.Ops = append(p.Ops, Op{Actor: "app", Kind: "alloc", At: gap(10 * ms)})
 	n := r.Range(3, 24)
 	readers := 0
+	reuse := r.Chance(1, 6) // one writer that reuses its address object for every destination
 	for i := 0; i < n; i++ {
 		peer := peers[r.Intn(np)]
 		g := gap(int64(r.Range(1, 1500)) * ms)
@@ -110,6 +111,10 @@ func genC13(p *Plan, r *RNG) {
 			o := Op{Actor: fmt.Sprintf("app%d", r.Intn(3)), Kind: "writeto", At: g, A: OpArgs{Peer: peer, Len: r.Range(9, 300)}}
 			if r.Chance(1, 4) {
 				o.A.Flags = []string{"ip4"} // the peer's address in the other net.IP form: the same peer
+			}
+			if reuse {
+				o.Actor = "app0"
+				o.A.Flags = append(o.A.Flags, "reuseaddr")
 			}
 			if p.Cfg.Extra["stream"] == 1 && r.Chance(1, 12) {
 				// a payload at or beyond what a STUN or ChannelData length field can say: refused,
